@@ -317,7 +317,10 @@ task_inplace_history.contract_fn = "functions.IndexableFunction.eval"
 def tasks(tier, seed):
     from ..pyvc.driver import verify
     from ..contracts import misc
+    from ..contracts import funceval
     ts = [(verify, (c, m, q, v)) for c, m, q, v in misc.ALL if m == "functions"]
+    # which row(s) of the table the caller gets, and in which shape, for all parameters and all start / stop of a unit-step slice
+    ts += [(verify, (c, m, q, v)) for c, m, q, v in funceval.ALL]
     for sh in tier_shapes(tier):
         ts.append((task_function, (sh, False)))
         # rational functions in many symbolic weights blow up: rational / history runs up to degree 3 with <= 1 interior knot, degree 2 beyond
